@@ -46,6 +46,18 @@ theorem uniq_count (w : World) (k : Kind) (ci : ClassInfo) (hk : w.classes[k]? =
   rw [uniqLoop_eq ci w.val hnd]
   rfl
 
+/-- `uniq_count` with the repetition count in DECLARATIVE form: per identifier, the number of pool positions whose
+    key tuple also occurs at an EARLIER position of the pool (no seen-list, no recursion: `repeatsDecl` counts
+    positions `j` with `key l[j] ∈ keys of l[0..j)`) -/
+theorem uniq_count_declarative (w : World) (k : Kind) (ci : ClassInfo) (hk : w.classes[k]? = some ci)
+    (hnd : (ci.idents.map (·.1)).Nodup) :
+    checkUniq w (some k) =
+      ((w.pool k).map (nullCount ci w.val)).sum +
+      (ci.idents.map (fun idn => repeatsDecl (fun x => identKey w.val x idn.2) (w.pool k) [])).sum := by
+  rw [uniq_count w k ci hk hnd]
+  congr 2
+  exact List.map_congr_left (fun idn _ => repeatsSpec_eq_decl _ _ _)
+
 /-- a value is null when it is unset, or the zero id in a column typed UNIQUE_ID in any letter case
     (the empty string is not counted, as the tool documents) -/
 theorem null_iff (v : Option Int) (isUid : Bool) : isNull v isUid = true ↔ v = none ∨ (isUid = true ∧ v = some 0) := by
